@@ -344,8 +344,8 @@ def swap (l : List α) (i j : Nat) : Option (List α) :=
   | some a, some b => some ((l.set i b).set j a)
   | _, _ => none
 
-/-- `for j in left..=right { if cmp(items[j], pivot) == -1 { items.swap(j, ret); ret += 1 } }`
-(`k` = iterations left) -/
+/-- `for j in left..right { if cmp(items[j], pivot) == -1 { items.swap(j, ret); ret += 1 } }`
+(`k` = iterations left; since the `fix:` commit 9e13c00 the pivot itself, at `right`, is not compared) -/
 def partLoop (cmp : Cmp3 ε α) (pivot : α) : Nat → List α → Nat → Nat → Nat → Res ε α (List α × Nat)
   | 0, items, _, ret, n => .ok (items, ret) n
   | k + 1, items, j, ret, n =>
@@ -390,7 +390,7 @@ def partition (cmp : Cmp3 ε α) (items : List α) (left right : Nat) (n : Nat) 
         match items1[right]? with
         | none => .panic
         | some pivot =>
-          (partLoop cmp pivot (right + 1 - left) items1 left left n1).bind fun st n2 =>
+          (partLoop cmp pivot (right - left) items1 left left n1).bind fun st n2 =>
             match swap st.1 st.2 right with
             | none => .panic
             | some items2 => .ok (items2, st.2) n2
